@@ -9,7 +9,7 @@ from .. import translate as T
 
 PID = "C07"
 TITLE = "Geometric quantities match their definitions, invariant under rigid motion"
-LEAN_MODULES = ["Mouette.Props.C07", "Mouette.Props.C07Real"]
+LEAN_MODULES = ["Mouette.Props.C07", "Mouette.Props.C07Real", "Mouette.Props.C07Hist"]
 REQUIRED_THEOREMS = [
     "sub_translate", "bary_translate", "circumcenter_translate", "dot_rotate", "norm2_rotate", "cross_rotate",
     "det3_rotate", "det_sq_of_orthogonal", "triArea2_rotate", "cornerCS_rotate", "tetVolume_rotate", "circumcenter_rotate",
@@ -17,6 +17,9 @@ REQUIRED_THEOREMS = [
     "circumcenter_equidistant_and_coplanar", "circumcenter_unique", "circumcenterNoOffset_refuted", "third_index",
     "corner_index_div", "corner_index_mod", "oppCorner_is_opposite", "cotanArgs_bridge", "cotanArgs_centered",
     "oppCorner_bridge", "interpolate_constant", "interpV2F_constant", "quatRot_orthogonal", "renumber_pt",
+    "angleDefectStruct_bridge", "defect_table", "interp_outputs_cleared", "consistent_step", "read_eq_fresh", "history_eq_fresh",
+    "area_history_rigid", "area_compute_move_read", "corner_compute_move_read", "cached_area_not_invalidated_by_scale",
+    "cached_normals_not_invalidated_by_rotation", "drop_repairs",
     "atan2_eq_angle", "codeAngle_eq_angle", "codeAngle_range", "angle_sum_pi", "meshAngle_sum", "corner_sum_by_vertex", "defect_total",
     "gauss_bonnet_combinatorial", "gauss_bonnet_closed", "gauss_bonnet", "handshake_of_manifold", "gauss_bonnet_of_manifold",
     "faceAreaTerms_rotate", "faceCornerCS_rotate", "faceNormalDir_rotate", "faceBary_rotate", "bary_rotate", "mid_rotate", "dist2_rotate",
@@ -80,79 +83,116 @@ def _mk_attr(M, container, n, name, P, D, width=1):
     return Attribute(float, width) if width > 1 else Attribute(float)
 
 
-def observe(kind, V, elems, opts, attrs=None):
-    """Drive the real implementation on one mesh with one option set. Returns {key: flat float list | 'err:..'}."""
+REPS = ["vec", "list", "tuple", "ndarray", "float32", "intlist", "int64", "int32", "int16"]
+INT_REPS = ("intlist", "int64", "int32", "int16")
+
+
+build_mesh = U.build_mesh
+
+
+def observe(kind, V, elems, opts, attrs=None, rep="vec", mesh=None, sfx=None):
+    """Drive the real implementation on one mesh with one option set. Returns {key: flat float list | 'err:..'}.
+    `mesh`: observe on this (already used) mesh object instead of a fresh one; `sfx`: suffix for the attribute names
+    (None = the functions' default names).  `out["_alias"]` lists by-value checks that failed: the attribute stored in the mesh
+    under the requested name differs from the returned one, an input attribute / the vertex coordinates were modified, the caller's
+    output attribute does not hold the returned values."""
     import mouette as M
     A = M.attributes
     P, D = bool(opts.get("persistent")), bool(opts.get("dense", True))
     out = {}
-    if kind == "surf":
-        m = G.build_surface({"V": V, "F": elems})
-    elif kind == "vol":
-        m = G.build_volume({"V": V, "C": elems})
-    else:
-        m = G.build_polyline({"V": V, "E": elems})
+    alias = []
+    m = mesh if mesh is not None else build_mesh(kind, V, elems, rep)
     nV = len(m.vertices)
+    V_before = [[float(c) for c in m.vertices[i]] for i in range(nV)]
     E = [(int(a), int(b)) for a, b in m.edges]
     nE = len(E)
     out["E"] = [list(e) for e in E]
-    out["elen"] = _try(lambda: _alist(A.edge_length(m, persistent=P, dense=D), nE))
-    out["emid"] = _try(lambda: _alist(A.edge_middle_point(m, persistent=P, dense=D), nE, 3))
-    out["deg"] = _try(lambda: _alist(A.degree(m, persistent=P, dense=D), nV))
+
+    def call(key, fn, default_name, container, n, width=1, **kw):
+        """call an attribute function with the case's persistent/dense flags (and the name suffix), read the values from the returned
+        attribute, and check BY VALUE what the mesh stores under that name"""
+        name = kw.pop("name", default_name) + (sfx or "")
+        if sfx is not None or "force_name" in kw:
+            kw.pop("force_name", None); kw["name"] = name
+
+        def run():
+            had = container.has_attribute(name)
+            a = fn(m, persistent=P, dense=D, **kw)
+            vals = _alist(a, n, width)
+            if P:
+                if not container.has_attribute(name): alias.append(f"{key}:persistent-not-stored")
+                else:
+                    st = _alist(container.get_attribute(name), n, width)
+                    if any((x != y) and not (x != x and y != y) for x, y in zip(st, vals)): alias.append(f"{key}:stored-differs-from-returned")
+            elif not had and container.has_attribute(name):
+                alias.append(f"{key}:non-persistent-call-stored-attribute")
+            return vals
+        out[key] = _try(run)
+    call("elen", A.edge_length, "length", m.edges, nE)
+    call("emid", A.edge_middle_point, "middle", m.edges, nE, 3)
+    call("deg", A.degree, "degree", m.vertices, nV)
     out["g_mel"] = _try(lambda: [float(A.mean_edge_length(m))])
     out["g_mel_big"] = _try(lambda: [float(A.mean_edge_length(m, nE + 7))])
     out["g_bary"] = _try(lambda: [float(c) for c in A.barycenter(m)])
     if kind == "vol":
         nC = len(m.cells)
-        out["cvol"] = _try(lambda: _alist(A.cell_volume(m, persistent=P, dense=D), nC))
-        out["cbary"] = _try(lambda: _alist(A.cell_barycenter(m, persistent=P, dense=D), nC, 3))
+        call("cvol", A.cell_volume, "volume", m.cells, nC)
+        call("cbary", A.cell_barycenter, "barycenter", m.cells, nC, 3)
         out["g_mcv"] = _try(lambda: [float(A.mean_cell_volume(m))])
         out["g_mcv_big"] = _try(lambda: [float(A.mean_cell_volume(m, nC + 5))])
-        return out
-    if kind == "poly":
-        return out
-    nF = len(m.faces)
-    nK = len(m.face_corners)
-    out["farea"] = _try(lambda: _alist(A.face_area(m, persistent=P, dense=D), nF))
-    out["fnrm"] = _try(lambda: _alist(A.face_normals(m, persistent=P, dense=D), nF, 3))
-    out["fbary"] = _try(lambda: _alist(A.face_barycenter(m, persistent=P, dense=D), nF, 3))
-    out["fcirc"] = _try(lambda: _alist(A.face_circumcenter(m, persistent=P, dense=D), nF, 3))
-    out["far"] = _try(lambda: _alist(A.triangle_aspect_ratio(m, persistent=P, dense=D), nF))
-    if opts.get("angles_first"):
-        out["cangle"] = _try(lambda: _alist(A.corner_angles(m, persistent=P, dense=D), nK))
-    out["ccot"] = _try(lambda: _alist(A.cotangent(m, persistent=P, dense=D), nK))
-    if not opts.get("angles_first"):
-        out["cangle"] = _try(lambda: _alist(A.corner_angles(m, persistent=P, dense=D), nK))
-    out["cotw"] = _try(lambda: _alist(A.cotan_weights(m, persistent=P, dense=D), nE))
-    for w in WEIGHTS:
-        out["vn_" + w] = _try(lambda: _alist(A.vertex_normals(m, name="vn_" + w, persistent=P, interpolation=w, dense=D), nV, 3))
-    zb = bool(opts.get("zb"))
-    out["ad"] = _try(lambda: _alist(A.angle_defects(m, zero_border=zb, name="ad", persistent=P, dense=D), nV))
-    n_half = max(1, nE // 2)
-    out["g_mel_n"] = _try(lambda: [float(A.mean_edge_length(m, n_half))])
-    out["g_mfa"] = _try(lambda: [float(A.mean_face_area(m))])
-    out["g_mfa_big"] = _try(lambda: [float(A.mean_face_area(m, nF + 3))])
-    out["g_ta"] = _try(lambda: [float(A.total_area(m))])
-    out["g_chi"] = _try(lambda: [float(A.euler_characteristic(m))])
-    if attrs:
+    if kind == "surf":
+        nF = len(m.faces)
+        nK = len(m.face_corners)
+        call("farea", A.face_area, "area", m.faces, nF)
+        call("fnrm", A.face_normals, "normals", m.faces, nF, 3)
+        call("fbary", A.face_barycenter, "barycenter", m.faces, nF, 3)
+        call("fcirc", A.face_circumcenter, "circumcenter", m.faces, nF, 3)
+        call("far", A.triangle_aspect_ratio, "aspect_ratio", m.faces, nF)
+        if opts.get("angles_first"):
+            call("cangle", A.corner_angles, "angles", m.face_corners, nK)
+        call("ccot", A.cotangent, "cotan", m.face_corners, nK)
+        if not opts.get("angles_first"):
+            call("cangle", A.corner_angles, "angles", m.face_corners, nK)
+        call("cotw", A.cotan_weights, "cotan_weight", m.edges, nE)
+        for w in WEIGHTS:
+            call("vn_" + w, A.vertex_normals, "vn_" + w, m.vertices, nV, 3, interpolation=w, force_name=True)
+        zb = bool(opts.get("zb"))
+        call("ad", A.angle_defects, "ad", m.vertices, nV, zero_border=zb, force_name=True)
+        n_half = max(1, nE // 2)
+        out["g_mel_n"] = _try(lambda: [float(A.mean_edge_length(m, n_half))])
+        out["g_mfa"] = _try(lambda: [float(A.mean_face_area(m))])
+        out["g_mfa_big"] = _try(lambda: [float(A.mean_face_area(m, nF + 3))])
+        out["g_ta"] = _try(lambda: [float(A.total_area(m))])
+        out["g_chi"] = _try(lambda: [float(A.euler_characteristic(m))])
+    if kind == "surf" and attrs:
         I = A
         for tag, va, fa, ca in (("i", attrs["va"], attrs["fa"], attrs["ca"]), ("k", [attrs["const"]] * nV, [attrs["const"]] * nF, [attrs["const"]] * nK)):
             cnt = [0]
 
             def fresh(container, n):
                 cnt[0] += 1
-                return _mk_attr(M, container, n, f"{tag}_{cnt[0]}", P, D)
+                return _mk_attr(M, container, n, f"{tag}_{cnt[0]}{sfx or ''}", P, D)
 
             def filled(container, n, vals):
                 a = fresh(container, n)
                 for i, x in enumerate(vals): a[i] = float(x)
                 return a
             vattr = filled(m.vertices, nV, va); fattr = filled(m.faces, nF, fa); cattr = filled(m.face_corners, nK, ca)
-            def run(name, n, call, container):
+            inputs = (("vattr", vattr, nV, va), ("fattr", fattr, nF, fa), ("cattr", cattr, nK, ca))
+
+            def run(name, n, callf, container):
                 o = fresh(container, n)
-                out[f"{tag}_{name}"] = _try(lambda: _alist(call(o), n))
+
+                def once():
+                    r = callf(o)
+                    vals = _alist(r, n)
+                    if _alist(o, n) != vals: alias.append(f"{tag}_{name}:output-attribute-differs-from-returned")
+                    for nm, a, k, src in inputs:
+                        if _alist(a, k) != [float(x) for x in src]: alias.append(f"{tag}_{name}:input-{nm}-modified")
+                    return vals
+                out[f"{tag}_{name}"] = _try(once)
                 if tag == "k":      # second call writing into the SAME (now non-empty) output attribute
-                    out[f"r_{name}"] = _try(lambda: _alist(call(o), n))
+                    out[f"r_{name}"] = _try(once)
             run("v2f", nF, lambda o: I.interpolate_vertices_to_faces(m, vattr, o), m.faces)
             for w in ["uniform", "area", "angle", "sum"]:
                 run(f"f2v_{w}", nV, lambda o, w=w: I.interpolate_faces_to_vertices(m, fattr, o, weight=w), m.vertices)
@@ -161,6 +201,9 @@ def observe(kind, V, elems, opts, attrs=None):
             for w in ["uniform", "angle", "sum"]:
                 run(f"ac2v_{w}", nV, lambda o, w=w: I.average_corners_to_vertices(m, cattr, o, weight=w), m.vertices)
                 run(f"ac2f_{w}", nF, lambda o, w=w: I.average_corners_to_faces(m, cattr, o, weight=w), m.faces)
+    V_after = [[float(c) for c in m.vertices[i]] for i in range(nV)]
+    if V_after != V_before: alias.append("mesh:vertex-coordinates-modified")
+    out["_alias"] = sorted(set(alias))
     return out
 
 
@@ -168,7 +211,7 @@ _CACHE = {}
 
 
 def impl_observe(case):
-    obs = observe(case["t"], case["V"], case["X"], case["opts"], case.get("attrs"))
+    obs = observe(case["t"], case["V"], case["X"], case["opts"], case.get("attrs"), rep=case.get("rep", "vec"))
     _CACHE.clear(); _CACHE["case"] = case; _CACHE["obs"] = obs
     return obs
 
@@ -201,10 +244,17 @@ def _size(V):
     return max(1e-30, max(abs(c) for p in V for c in p))
 
 
+_TOL = {"f": 1.0}     # tolerance factor of the current case: float32 coordinates are processed in float32 arithmetic (eps 6e-8)
+
+
+def _set_tol(case):
+    _TOL["f"] = 2e4 if case.get("rep") == "float32" else 1.0
+
+
 def _scale_for(key, size, attrmag=1.0):
     dom, kind, deg = REG[key]
-    if key[:2] in ("i_", "k_", "r_"): return attrmag * 50.0
-    return COND.get(key, 1.0) * (size ** deg if deg else 1.0)
+    if key[:2] in ("i_", "k_", "r_"): return attrmag * 50.0 * _TOL["f"]
+    return COND.get(key, 1.0) * (size ** deg if deg else 1.0) * _TOL["f"]
 
 
 # =================================================================================================
@@ -509,10 +559,119 @@ def _fam(case):
     return "tri" if ls == {3} else ("quad" if ls == {4} else "poly")
 
 
+# Name-keyed caches of the library (`if mesh.X.has_attribute(name): use it else compute`, by design): which geometric attribute a
+# move of the vertices PRESERVES (Props/C07Hist: *_rigid theorems; similarity for angles/cotangents/unit normals). A careful caller
+# drops the others through the public API before asking a READER of the cache again (theorem `drop_repairs`).
+CACHES = {"angles": ("face_corners", "angles"), "cotan": ("face_corners", "cotan"), "fnormals": ("faces", "normals"),
+          "area": ("faces", "area"), "volume": ("cells", "volume"), "vnormals": ("vertices", "normals")}
+PRESERVED = {"translate": {"angles", "cotan", "fnormals", "area", "volume", "vnormals"},
+             "rotate": {"angles", "cotan", "area", "volume"},
+             "scale": {"angles", "cotan", "fnormals", "vnormals"},
+             "vertex": set()}
+
+
+def drop_caches(m, which):
+    """delete the named cached attributes through the public container API (what a caller does after changing the geometry)"""
+    for c in sorted(which):
+        cont, name = CACHES[c]
+        container = getattr(m, cont, None)
+        if container is not None and container.has_attribute(name): container.delete_attribute(name)
+
+
+DECOY = {"surf": ([[0.0, 0.0, 0.0], [3.0, 0.0, 0.5], [0.0, 2.0, 0.0], [3.0, 2.5, 1.0], [5.0, 1.0, 0.0], [1.5, 4.0, 0.5], [-1.0, 3.0, 0.25]],
+                  [[0, 1, 2], [1, 3, 2], [1, 4, 3], [2, 3, 5, 6]]),
+         "vol": ([[0.0, 0.0, 0.0], [2.0, 0.0, 0.0], [0.0, 3.0, 0.0], [0.0, 0.0, 1.5], [2.0, 3.0, 1.5]], [[0, 1, 2, 3], [1, 2, 3, 4]]),
+         "poly": ([[0.0, 0.0, 0.0], [1.0, 2.0, 0.0], [3.0, 1.0, 1.0]], [[0, 1], [1, 2]])}
+
+
+def _apply_move(m, mv):
+    """move the vertices of a USED mesh with the library's own transformation functions (or a plain vertex assignment)"""
+    import mouette as M
+    from mouette.geometry import transform as TR
+    k = mv["kind"]
+    if k == "translate": TR.translate(m, M.Vec(*[float(c) for c in mv["t"]]))
+    elif k == "scale": TR.scale(m, float(mv["s"]))
+    elif k == "rotate":
+        from scipy.spatial.transform import Rotation
+        a, b, c, d = mv["q"]
+        TR.rotate(m, Rotation.from_quat([b, c, d, a]))
+    else:
+        i = mv["i"] % len(m.vertices)
+        m.vertices[i] = m.vertices[i] + M.Vec(*[float(c) for c in mv["d"]])
+
+
+def _history(case):
+    """HISTORIES ON ONE MESH OBJECT: every quantity computed a second time on a used mesh (other dense/persistent flags, same or
+    other attribute names), and a third time after the vertices were moved, equals the computation on a fresh mesh."""
+    out = []
+    kind, V, X, opts, attrs, h = case["t"], case["V"], case["X"], case["opts"], case.get("attrs"), case["hist"]
+    size = _size(V)
+    amag = max([1.0] + [abs(float(x)) for x in (attrs["va"] + attrs["fa"] + attrs["ca"] + [attrs["const"]])]) if attrs else 1.0
+    m = build_mesh(kind, V, X, case.get("rep", "vec"))
+    optsP = dict(opts, persistent=True)
+    observe(kind, V, X, optsP, attrs, mesh=m)                       # first use: everything persistent
+    # STATE SHARED BETWEEN INSTANCES: the same computations on ANOTHER mesh in between must not change anything for this one
+    dV, dX = DECOY[kind]
+    observe(kind, dV, dX, optsP, None if kind != "surf" else {"va": [1.0] * len(dV), "fa": [2.0] * len(dX), "ca": [0.5] * sum(len(f) for f in dX), "const": 7.0})
+    # persistent=True a second time under the SAME names (accumulators `x[k] += ..` must start from a fresh attribute)
+    o2a = observe(kind, V, X, optsP, attrs, mesh=m)
+    f2a = observe(kind, V, X, optsP, attrs, rep=case.get("rep", "vec"))
+    opts2 = dict(opts, persistent=h["p2"], dense=h["d2"], angles_first=not opts.get("angles_first"))
+    o2 = observe(kind, V, X, opts2, attrs, mesh=m, sfx=h["sfx2"])
+    f2 = observe(kind, V, X, opts2, attrs, rep=case.get("rep", "vec"))
+    for oo, ff, how in ((o2a, f2a, f"persistent again, same names, opts {optsP}"), (o2, f2, f"opts {opts2} name suffix {h['sfx2']!r}")):
+        for key in REG:
+            if key not in oo or key not in ff: continue
+            bad = U.first_bad(oo[key], ff[key], _scale_for(key, size, amag))
+            if bad:
+                out.append(_finding(f"C07/history/second-call/{key}", f"{key}: a second computation on the same mesh differs from the computation on a fresh mesh",
+                                    f"second call ({how}) index {bad[0]}: {bad[1]} vs fresh {bad[2]}"))
+    for a in o2["_alias"]:
+        out.append(_finding(f"C07/alias/{a.split(':')[1]}/{a.split(':')[0]}", "by-value check failed on the second call", a))
+    _apply_move(m, h["move"])
+    V3 = [[float(c) for c in m.vertices[i]] for i in range(len(V))]
+    lost = set(CACHES) - PRESERVED[h["move"]["kind"]]
+    if h["sfx3"] is None:
+        # the caller asks for RECOMPUTATION, persistent under the same names: the computing functions must overwrite what is stored
+        # (nothing is dropped, except 'angles' when `cotangent` would read it before `corner_angles` rewrites it)
+        opts3 = optsP
+        dropped = ({"angles"} & lost) if not opts3.get("angles_first") else set()
+    else:
+        # other names / other flags: the default-name caches are only READ; the caller drops those the move did not preserve
+        opts3 = opts2
+        dropped = lost
+    drop_caches(m, dropped)
+    o3 = observe(kind, V3, X, opts3, attrs, mesh=m, sfx=h["sfx3"])
+    f3 = observe(kind, V3, X, opts3, attrs)
+    size3 = max(size, _size(V3))
+    for key in REG:
+        if key not in o3 or key not in f3: continue
+        bad = U.first_bad(o3[key], f3[key], _scale_for(key, size3, amag))
+        if bad:
+            out.append(_finding(f"C07/history/after-move/{key}", f"{key}: recomputed after the vertices were moved (caches not preserved by the move dropped by "
+                                "the caller), differs from the computation on a fresh mesh",
+                                f"{key} move {h['move']} dropped {sorted(dropped)} opts {opts3} suffix {h['sfx3']!r} index {bad[0]}: {bad[1]} vs fresh {bad[2]}"))
+    return out
+
+
 def oracle(case):
     out = []
     kind, V, X, opts, attrs = case["t"], case["V"], case["X"], case["opts"], case.get("attrs")
+    _set_tol(case)
     obs = _obs(case)
+    if case.get("rep") in ("int32", "int16"):
+        # narrow integer coordinates: same values as with float coordinates (defect fixed at mesh construction; reported under its own
+        # key if it returns, before the other clauses flood)
+        ref = observe(kind, V, X, opts, attrs)
+        size0 = _size(V)
+        for key in REG:
+            if key in obs and key in ref and U.first_bad(obs[key], ref[key], _scale_for(key, size0, 50.0)):
+                return [_finding("C07/repr/int32-overflow", "with 32/16-bit integer vertex coordinates the quantities differ from those of the same mesh "
+                                 "with float coordinates (integer overflow in dot/cross products)", f"{key}: {str(obs[key])[:120]} vs {str(ref[key])[:120]}")]
+    for a in obs.get("_alias", []):
+        out.append(_finding(f"C07/alias/{a.split(':')[1]}/{a.split(':')[0]}", "by-value check of what the mesh / the caller's attributes hold failed", a))
+    if case.get("hist"):
+        out += _history(case)
     E = [tuple(e) for e in obs["E"]]
     size = _size(V)
     amag = max([1.0] + [abs(float(x)) for x in (attrs["va"] + attrs["fa"] + attrs["ca"] + [attrs["const"]])]) if attrs else 1.0
@@ -561,13 +720,13 @@ def oracle(case):
         # unit normals have unit length, polygons included
         if not isinstance(obs["fnrm"], str):
             for t, n in enumerate(_chunks(obs["fnrm"], 3)):
-                if abs(sum(c * c for c in n) - 1) > 1e-9:
+                if abs(sum(c * c for c in n) - 1) > 1e-9 * _TOL["f"]:
                     out.append(_finding(f"C07/def/fnrm-unit/{fam}", "face normal is not a unit vector", f"face {t}: {n}")); break
         # ---- 2. triangle angle sums and Gauss-Bonnet
         if fam == "tri" and not isinstance(obs["cangle"], str):
             for t in range(len(X)):
                 s = sum(obs["cangle"][3 * t:3 * t + 3])
-                if abs(s - math.pi) > 1e-9:
+                if abs(s - math.pi) > 1e-9 * _TOL["f"]:
                     out.append(_finding("C07/anglesum", "corner angles of a triangle do not sum to pi", f"face {t}: {s}")); break
             if not opts.get("zb") and not isinstance(obs["ad"], str):
                 st = G.surface_stats(len(V), X)
@@ -578,7 +737,7 @@ def oracle(case):
                     raise RuntimeError(f"gauss_bonnet premises fail on a generated manifold mesh: {prem} tag={case.get('tag')}")
                 if st["manifold"] and st["unused"] == 0:
                     tot = sum(obs["ad"])
-                    if abs(tot - 2 * math.pi * st["chi"]) > 1e-8 * max(1, len(V)):
+                    if abs(tot - 2 * math.pi * st["chi"]) > 1e-8 * max(1, len(V)) * _TOL["f"]:
                         out.append(_finding("C07/gauss-bonnet", "angle defects do not sum to 2*pi*chi", f"sum {tot} chi {st['chi']} tag {case.get('tag')}"))
         # ---- 3. interpolating a constant returns the constant
         if attrs:
@@ -587,9 +746,13 @@ def oracle(case):
                 if not key.startswith("k_") or key.endswith("_sum"): continue
                 if isinstance(got, str):
                     out.append(_finding(f"C07/const/{key}/raises", f"{key[2:]} of a constant raised", got)); continue
-                bad = [x for x in got if abs(x - c0) > 1e-9 * max(1, abs(c0))]
+                bad = [x for x in got if abs(x - c0) > 1e-9 * max(1, abs(c0)) * _TOL["f"]]
                 if bad:
                     out.append(_finding(f"C07/const/{key}", f"{key[2:]} of a constant attribute is not that constant", f"{bad[:3]} vs {c0}"))
+    # vertex-normal keys whose weighted normals cancel exactly at some vertex of THIS mesh (textbook waived as NaN, the implementation
+    # raises FloatingPointError when normalising the zero vector): ill-conditioned, rounding after a motion / scaling decides: no clause
+    waived = {key for key, exp in tb.items() if isinstance(obs.get(key), str) and "FloatingPointError" in obs[key]
+              and isinstance(exp, list) and any(isinstance(x, float) and x != x for x in exp)}
     # ---- 4. metamorphic runs on the implementation
     mrng = random.Random(case.get("mseed", 0))
     for which in case.get("meta", []):
@@ -611,7 +774,7 @@ def oracle(case):
                     res += r
                 return res
             for key in REG:
-                if key not in obs or key not in o2: continue
+                if key not in obs or key not in o2 or key in waived: continue
                 if o2.get("E") != obs.get("E") and REG[key][0] in ("E", "G*"): continue
                 bad = U.first_bad(o2[key], mapped(key, obs[key]), _scale_for(key, size2, amag))
                 if bad:
@@ -623,7 +786,7 @@ def oracle(case):
             V2 = [[c * s for c in p] for p in V]
             o2 = observe(kind, V2, X, opts, attrs)
             for key in REG:
-                if key not in obs or key not in o2: continue
+                if key not in obs or key not in o2 or key in waived: continue
                 if isinstance(obs[key], str): exp = obs[key]
                 else:
                     d = REG[key][2]
@@ -638,7 +801,7 @@ def oracle(case):
             E2 = {frozenset(e): i for i, e in enumerate(tuple(e) for e in o2["E"])}
             emap = [E2.get(frozenset((maps["V"][a], maps["V"][b]))) for a, b in E]
             for key in REG:
-                if key not in obs or key not in o2: continue
+                if key not in obs or key not in o2 or key in waived: continue
                 dom = REG[key][0]
                 if dom == "G*": continue
                 a, b = obs[key], o2[key]
@@ -660,7 +823,7 @@ def oracle(case):
             base = {"persistent": False, "dense": True, "zb": opts.get("zb"), "angles_first": False}
             o2 = observe(kind, V, X, base, attrs)
             for key in REG:
-                if key not in obs or key not in o2: continue
+                if key not in obs or key not in o2 or key in waived: continue
                 bad = U.first_bad(obs[key], o2[key], _scale_for(key, size, amag))
                 if bad:
                     out.append(_finding(f"C07/opts/{key}", f"{key} depends on the persistent/dense/call-order options",
@@ -804,6 +967,7 @@ def compare(case, model, impl):
     if model == "bad-request":
         return "model rejected the request"
     exp = from_model(case, model)
+    _set_tol(case)
     size = _size(case["V"])
     a = case.get("attrs")
     amag = max([1.0] + [abs(float(x)) for x in (a["va"] + a["fa"] + a["ca"])]) if a else 1.0
@@ -853,6 +1017,20 @@ def _decorate(rng, case, metas):
     case["mseed"] = rng.randrange(1 << 30)
     case["motion"] = {"q": list(rng.choice(U.QUATS[1:])), "t": [_dy(rng, -5, 5), _dy(rng, -5, 5), _dy(rng, -5, 5)]}
     case["scale"] = rng.choice([-3, -2, -1, 1, 2, 3, 5])
+    # representation of the vertex coordinates handed to the mesh (same values): Vec / list / tuple / ndarray / float32 / python ints / int64
+    rep = rng.choice(REPS) if rng.random() < 0.55 else "vec"
+    if case.get("tag") in ("dart",): rep = "vec"
+    if rep in INT_REPS:
+        case["V"] = [[float(round(c * 64)) for c in p] for p in case["V"]]      # integer-valued coordinates (same shape, scaled by 64)
+    case["rep"] = rep
+    # history on one mesh object: second computation with other flags / names, then after a move of the vertices
+    if rng.random() < 0.4:
+        mk = rng.choice(["translate", "rotate", "scale", "vertex"])
+        sz = _size(case["V"])
+        mv = {"kind": mk, "t": [_dy(rng, -3, 3), _dy(rng, -3, 3), _dy(rng, -3, 3)], "s": rng.choice([0.5, 2.0, 4.0]),
+              "q": list(rng.choice(U.QUATS[1:])), "i": rng.randrange(1 << 16),
+              "d": [rng.choice([-1, 1]) * sz / 64, rng.choice([-1, 1]) * sz / 128, sz / 64]}
+        case["hist"] = {"p2": rng.random() < 0.6, "d2": rng.random() < 0.5, "sfx2": rng.choice([None, "_b"]), "sfx3": rng.choice([None, "_c"]), "move": mv}
     if case["t"] == "surf":
         nK = sum(len(f) for f in case["X"])
         case["attrs"] = {"va": [_dy(rng, -4, 4) for _ in case["V"]], "fa": [_dy(rng, -4, 4) for _ in case["X"]],
@@ -888,8 +1066,36 @@ def _dart_case(rng):
     return {"t": "surf", "V": V, "X": X, "tag": "dart"}
 
 
+def _ngon_hist_case(rng):
+    """polygon faces with 5+ vertices (fan areas are ACCUMULATED per face), always with a history: persistent twice under the same
+    names, with and without a move in between"""
+    for _ in range(30):
+        if rng.random() < 0.5:
+            n = rng.randint(5, 7)
+            V = [[G.dy(math.cos(2 * math.pi * i / n) * 2), G.dy(math.sin(2 * math.pi * i / n) * 2), G.dy(rng.uniform(-.3, .3))] for i in range(n)]
+            case = {"t": "surf", "V": V, "X": [list(range(n))], "tag": "ngon-hist"}
+        else:
+            V, F = G.grid(rng, 3, rng.randint(3, 4), tri=False)
+            V, F = G.merge_polygons(rng, V, F, rng.randint(1, 2))
+            V, F = G.compact(V, F)
+            case = {"t": "surf", "V": [[float(c) for c in p] for p in V], "X": F, "tag": "ngon-hist"}
+        if max(len(f) for f in case["X"]) >= 5 and _well_conditioned(case): return case
+    return None
+
+
 def cases(rng, tier):
-    n_s, n_v, n_p, mf = (300, 60, 30, 48) if tier == "quick" else (2500, 400, 150, 200)
+    for _ in range(6 if tier == "quick" else 40):
+        c = _ngon_hist_case(rng)
+        if c is None: continue
+        c = _decorate(rng, c, ["opts"])
+        c["rep"] = "vec" if c.get("rep") in INT_REPS + ("float32",) else c["rep"]
+        if c["rep"] == "vec": c["V"] = [[float(x) for x in p] for p in c["V"]]
+        sz = _size(c["V"])
+        c["hist"] = {"p2": True, "d2": rng.random() < 0.5, "sfx2": None, "sfx3": None,
+                     "move": {"kind": rng.choice(["translate", "rotate", "scale"]), "t": [_dy(rng, -3, 3), _dy(rng, -3, 3), _dy(rng, -3, 3)],
+                              "s": rng.choice([0.5, 2.0]), "q": list(rng.choice(U.QUATS[1:])), "i": 0, "d": [sz / 64, sz / 128, sz / 64]}}
+        yield c
+    n_s, n_v, n_p, mf = (230, 50, 24, 48) if tier == "quick" else (2500, 400, 150, 200)
     allm = ["motion", "scale", "renum", "opts"]
     for i in range(n_s):
         tri_only = rng.random() < 0.6
@@ -922,6 +1128,10 @@ def classify(case, obs):
     o = case["opts"]
     ks.append(f"opts:P{int(o['persistent'])}D{int(o['dense'])}Z{int(o['zb'])}A{int(o['angles_first'])}")
     ks += ["meta:" + m for m in case.get("meta", [])]
+    ks.append("rep:" + case.get("rep", "vec"))
+    if case.get("hist"):
+        h = case["hist"]
+        ks.append("hist:move-" + h["move"]["kind"]); ks.append(f"hist:second-P{int(h['p2'])}D{int(h['d2'])}-{'same' if h['sfx2'] is None else 'other'}-name")
     if case["t"] == "surf":
         st = G.surface_stats(len(case["V"]), case["X"])
         ks.append("border:" + ("yes" if st["border_edges"] else "no")); ks.append(f"chi:{st['chi']}")
@@ -930,7 +1140,8 @@ def classify(case, obs):
 
 
 def describe(case):
-    return {"t": case["t"], "tag": case.get("tag"), "nV": len(case["V"]), "nX": len(case["X"]), "opts": case["opts"], "meta": case.get("meta")}
+    return {"t": case["t"], "tag": case.get("tag"), "nV": len(case["V"]), "nX": len(case["X"]), "opts": case["opts"], "meta": case.get("meta"),
+            "rep": case.get("rep"), "hist": case.get("hist")}
 
 
 def shrink(case, still):
@@ -1039,6 +1250,91 @@ def translate():
                     f"def oppCorner (first iA iB : Nat) : Nat := {outs[0]}\n\n")
         return outs[0]
 
+    def defect_guards():
+        """attr_vertices.angle_defects: default value, border initialisation, skip guard -> Generated/C07Defect.lean"""
+        tree, _ = T.load("mouette/attributes/attr_vertices.py")
+        fn = T.find_def(tree, "angle_defects")
+
+        def pi_mult(node):
+            if isinstance(node, ast.Constant) and node.value == 0: return 0
+            if isinstance(node, ast.Name) and node.id == "pi": return 1
+            if isinstance(node, ast.BinOp) and isinstance(node.op, ast.Mult):
+                a, b = node.left, node.right
+                if isinstance(b, ast.Name) and b.id == "pi" and isinstance(a, ast.Constant) and isinstance(a.value, int): return a.value
+                if isinstance(a, ast.Name) and a.id == "pi" and isinstance(b, ast.Constant) and isinstance(b.value, int): return b.value
+            raise T.TranslateError(f"not an integer multiple of pi: {ast.dump(node)[:80]}")
+        defaults = [pi_mult(kw.value) for n in ast.walk(fn) if isinstance(n, ast.Call) for kw in n.keywords if kw.arg == "default_value"]
+        if len(defaults) != 3 or len(set(defaults)) != 1:
+            raise T.TranslateError(f"angle_defects: expected three attribute constructions with the same default_value, got {defaults}")
+        border = skip = sub = None
+        for node in fn.body:
+            if isinstance(node, ast.For) and isinstance(node.iter, ast.Attribute) and node.iter.attr == "boundary_vertices":
+                if len(node.body) != 1 or not isinstance(node.body[0], ast.Assign) or not isinstance(node.body[0].value, ast.IfExp):
+                    raise T.TranslateError("angle_defects: border loop is not `defects[i] = <a> if zero_border else <b>`")
+                ie = node.body[0].value
+                if not (isinstance(ie.test, ast.Name) and ie.test.id == "zero_border"):
+                    raise T.TranslateError("angle_defects: border value does not test zero_border")
+                border = (pi_mult(ie.body), pi_mult(ie.orelse))
+            if isinstance(node, ast.For) and isinstance(node.iter, ast.Call) and getattr(node.iter.func, "id", "") == "enumerate":
+                lb = node.body
+                if len(lb) != 2 or not isinstance(lb[0], ast.If) or not isinstance(lb[1], ast.AugAssign) or not isinstance(lb[1].op, ast.Sub):
+                    raise T.TranslateError("angle_defects: corner loop is not `if <guard>: continue` followed by `defects[V] -= ang[C]`")
+                g = lb[0]
+                if not (len(g.body) == 1 and isinstance(g.body[0], ast.Continue) and not g.orelse and isinstance(g.test, ast.BoolOp) and isinstance(g.test.op, ast.And) and len(g.test.values) == 2):
+                    raise T.TranslateError("angle_defects: guard is not `A and B: continue`")
+                kinds = set()
+                for v in g.test.values:
+                    if isinstance(v, ast.Name) and v.id == "zero_border": kinds.add("zb")
+                    elif isinstance(v, ast.Call) and isinstance(v.func, ast.Attribute) and v.func.attr == "is_vertex_on_border": kinds.add("border")
+                    else: raise T.TranslateError(f"angle_defects: unknown guard operand {ast.dump(v)[:60]}")
+                if kinds != {"zb", "border"}: raise T.TranslateError("angle_defects: guard is not (on border) and zero_border")
+                skip = True; sub = True
+        if border is None or not skip:
+            raise T.TranslateError("angle_defects: border loop or corner loop not found at the top level of the function")
+        body.append("/-- `attr_vertices.angle_defects`: starting value of a vertex as a multiple of pi (attribute default; border loop `a if zero_border else b`) -/\n"
+                    f"def defectBase (border zb : Bool) : Nat := if border then (if zb then {border[0]} else {border[1]}) else {defaults[0]}\n"
+                    "/-- the corner loop skips (`continue`) exactly when the vertex is on the border and zero_border is set -/\n"
+                    "def defectSkip (border zb : Bool) : Bool := border && zb\n\n")
+        return f"default {defaults[0]}*pi, border {border}, guard border&&zb"
+
+    def interp_clears():
+        """interpolate.py: every function that ACCUMULATES into its output attribute (`out[k] = out[k] + ..` / `out[k] += ..`) empties it first"""
+        tree, _ = T.load("mouette/attributes/interpolate.py")
+        rows = []
+        for fname, outp in (("interpolate_vertices_to_faces", "fattr"), ("interpolate_faces_to_vertices", "vattr"),
+                            ("average_corners_to_vertices", "vattr"), ("average_corners_to_faces", "fattr")):
+            fn = T.find_def(tree, fname)
+            clears = sorted(n.lineno for n in ast.walk(fn) if isinstance(n, ast.Call) and isinstance(n.func, ast.Attribute) and n.func.attr == "clear"
+                            and isinstance(n.func.value, ast.Name) and n.func.value.id == outp)
+            accs = []
+            for n in ast.walk(fn):
+                tgt = None
+                if isinstance(n, ast.AugAssign) and isinstance(n.op, ast.Add): tgt = n.target
+                elif isinstance(n, ast.Assign) and isinstance(n.value, ast.BinOp) and isinstance(n.value.op, ast.Add) and ast.dump(n.targets[0]).replace("Store", "Load") == ast.dump(n.value.left):
+                    tgt = n.targets[0]
+                if tgt is not None and isinstance(tgt, ast.Subscript) and isinstance(tgt.value, ast.Name) and tgt.value.id == outp:
+                    accs.append(n.lineno)
+            if not accs:
+                raise T.TranslateError(f"{fname}: no accumulation into {outp} recognised")
+            # a clear dominates an accumulation when it comes earlier and sits at the function's top level or in the same `if/elif` branch
+            def branch_of(line):
+                for st in fn.body:
+                    if isinstance(st, ast.If):
+                        cur = st
+                        while True:
+                            if cur.body[0].lineno <= line <= max(x.end_lineno for x in cur.body): return cur.body[0].lineno
+                            if len(cur.orelse) == 1 and isinstance(cur.orelse[0], ast.If): cur = cur.orelse[0]
+                            elif cur.orelse and cur.orelse[0].lineno <= line <= max(x.end_lineno for x in cur.orelse): return cur.orelse[0].lineno
+                            else: break
+                return 0
+            for a in accs:
+                ok = any(c < a and branch_of(c) in (0, branch_of(a)) for c in clears)
+                rows.append((f"{fname}:{branch_of(a) and 'branch' or 'top'}", ok))
+        body.append("/-- `interpolate.py`: for every accumulation into the output attribute, is it preceded by `<output>.clear()`? -/\n"
+                    "def accumulatesAfterClear : List (String × Bool) := [" + ", ".join(f'("{n}", {"true" if ok else "false"})' for n, ok in rows) + "]\n\n")
+        return f"{len(rows)} accumulation sites, {sum(1 for _, ok in rows if not ok)} without a preceding clear()"
+    sites.append(T.site("attr_vertices.py:angle_defects (default, border value, skip guard)", defect_guards))
+    sites.append(T.site("interpolate.py:output attributes are cleared before accumulation", interp_clears))
     sites.append(T.site("attr_corners.py:cotangent (argument table)", cot_table))
     sites.append(T.site("attr_edges.py:cotan_weights (opposite corner index)", opp_expr))
     body.append("end Mouette.Generated.C07\n")
